@@ -23,6 +23,8 @@ def payloads(tier):
     small += [dict(n=3, size=10, container=c, compression='gzip') for c in ('array', 'list')]
     small += [dict(n=3, size=7, container='list', compression=None, vary=True), dict(n=2, size=0, container='list', compression=None)]
     small += [dict(n=3, size=10, container=c, compression=None, preexisting=True) for c in ('array', 'list', 'annotated-list')]
+    # the write as `gambit signatures create` does it: after a pooled signature calculation; death by os._exit and by SIGTERM
+    small += [dict(n=3, size=6, container='cli', compression=None, mode='cli', kill=k) for k in ('exit', 'sigterm')]
     big = [dict(n=4, size=300000, container=c, compression=comp) for c in ('array', 'annotated-list') for comp in (None, 'gzip')]
     big += [dict(n=3, size=300000, container='list', compression=None, preexisting=True)]
     if tier == 'thorough':
@@ -54,7 +56,13 @@ def same_content(pl, path):
     except BaseException as e:
         return 'error', type(e).__name__
     try:
-        want = payload(pl)
+        if pl.get('mode') == 'cli':
+            # intended content = what an uninterrupted run of the same command writes
+            ref = path + '.ref.gs'
+            pr = run_writer(dict(pl, out=ref, crash_at=-1, trace=None))
+            want = load_signatures(ref)
+        else:
+            want = payload(pl)
         ok = loaded.kmerspec == want.kmerspec and len(loaded) == len(want)
         ok = ok and all(np.array_equal(np.asarray(a), np.asarray(b)) and np.asarray(a).dtype == np.asarray(b).dtype for a, b in zip(loaded, want))
         if hasattr(want, 'ids'):
@@ -74,13 +82,18 @@ def same_content(pl, path):
 def crash_record(tmp, pl, ncalls, crash_at, idx):
     out = os.path.join(tmp, f'c{idx}_{crash_at}.gs')
     p = run_writer(dict(pl, out=out, crash_at=crash_at, trace=None))
-    r = dict(payload=pl, ncalls=ncalls, crash_at=crash_at, writer_rc=p.returncode, outcome='', detail='')
+    rc = p.returncode
+    if pl.get('kill') == 'sigterm' and crash_at < ncalls and rc in (-15, 143):
+        rc = 99                                   # died from SIGTERM at the chosen point
+    r = dict(payload=pl, ncalls=ncalls, crash_at=crash_at, writer_rc=rc, outcome='', detail='')
     if not os.path.exists(out):
         r['outcome'] = 'no-file'
     else:
         r['outcome'], r['detail'] = same_content(pl, out)
         r['size'] = os.path.getsize(out)
         os.remove(out)
+        if os.path.exists(out + '.ref.gs'):
+            os.remove(out + '.ref.gs')
     return r
 
 
